@@ -83,6 +83,7 @@ UNIT = dict(
     dict(id='roundtrip', entry='h_roundtrip', cls='unbounded', trace_defs=TD, note='symbolic MarkBits/MaxUpperMarkBits, all 64-bit p (reserved bits clear) and m'),
     dict(id='eq', entry='h_eq', cls='unbounded', trace_defs=TD),
     dict(id='repr', entry='h_repr', cls='unbounded', trace_defs=TD, note='from ANY 64-bit representation word'),
+    dict(id='repr_eq', entry='h_repr_eq', cls='unbounded', trace_defs=TD, note='== on ANY two representation words'),
     dict(id='reset', entry='h_reset', cls='unbounded', trace_defs=TD),
     dict(id='rotate', entry='h_rotate', cls='unbounded', note='C symbolic in 0..63'),
     dict(id='spec0', entry='h_spec0', cls='unbounded', trace_defs=TD, note='MarkBits == 0 specialisation'),
@@ -102,6 +103,6 @@ UNIT = dict(
   replays={k: dict(src='replay_mp.cpp', cxxflags=['-O0', '-g0']) for k in ['mp.consts.layout', 'mp.rotate.inverse', 'mp.get.roundtrip', 'mp.mark.roundtrip', 'mp.eq.value', 'mp.reset.null', 'mp.ctor.precondition', 'mp.repr.bijective', 'mp.spec0.roundtrip']},
   canaries=['consts.split', 'consts.all_upper', 'consts.all_lower', 'consts.huge_maxupper',
             'roundtrip.split', 'roundtrip.all_upper', 'roundtrip.all_lower', 'roundtrip.mb32', 'roundtrip.mark_trimmed', 'roundtrip.default_maxupper',
-            'eq.same', 'eq.ptr_differs', 'eq.mark_differs', 'eq.mark_congruent', 'repr.reached', 'repr.equal', 'reset.reached', 'reset.marked_null', 'reset.null',
+            'eq.same', 'eq.ptr_differs', 'eq.mark_differs', 'eq.mark_congruent', 'repr.reached', 'repr.equal', 'repr.differ', 'reset.reached', 'reset.marked_null', 'reset.null',
             'rotate.c0', 'rotate.c63', 'rotate.mid', 'spec0.reached', 'spec0.high_bits'],
 )
